@@ -34,6 +34,11 @@ def scenarios(quick):
             out.append(scenario([retry(2, dly=1), to(L)], fns, [start(1), env("CtxCancel", ct, 1)]))
             out.append(scenario([retry(2, dly=1), to(L)], fns, [start(1, 0, True), env("AsyncCancel", ct, 1)]))
             out.append(scenario([fb(), retry(2), to(L)], fns, [start(1, 0, True), env("AsyncCancel", ct, 1, gap=1)]))
+    for ct in (L + 1, L + 2):
+        fns = [[fn(L + 1, "R0", "E1", True), fn(2, "R1", None, True), fn(1, "R1")]]
+        out.append(scenario([retry(2, dly=3), to(L)], fns, [start(1, 0, True), env("AsyncCancel", ct, 1)]))
+        out.append(scenario([retry(2, dly=3), to(L)], fns, [start(1), env("CtxCancel", ct, 1)]))
+        out.append(scenario([fb(), retry(2, dly=3), to(L)], fns, [start(1, 0, True), env("AsyncCancel", ct, 1, gap=1)]))
     return out
 
 
